@@ -46,9 +46,12 @@ class FileInfo(BaseModel):
 
         Return: the original path `v`.
 
-        Raises: ValueError in case `v` contains "..".
+        Raises: ValueError in case `v` contains ".." or is absolute.
         """
         if ".." in v.parts:
             raise ValueError("A .. is present in the path which could allow "
                              "directory traversal above `dataset_root_path`.")
+        if v.is_absolute():
+            raise ValueError("An absolute path is not relative to "
+                             "`dataset_root_path`.")
         return v
